@@ -81,22 +81,45 @@ READERS = {
 
 
 # --------------------------------------------------------------------------- snapshots / clone
+_J_LISTED = ('bib', 'attempts_by_height', 'highest_cleared', '_place', 'eliminated', 'dismissed', 'round_lim', 'consecutive_failures',
+             'highest_cleared_index')
+_C_LISTED = ('state', 'heights', 'bar_height', 'jumpers', 'ranked_jumpers', 'jumpers_by_bib', 'actions', '_vf_shadow')
+
+
+def _others(obj, listed):
+    """every other instance attribute, whatever it is called (a counter or a flag added later is state as well): name and printed
+    value, containers printed in a stable order"""
+    out = []
+    for k, v in sorted(vars(obj).items()):
+        if k in listed:
+            continue
+        if isinstance(v, (set, frozenset)):
+            r = repr(sorted(v, key=repr))
+        elif isinstance(v, dict):
+            r = repr(sorted(v.items(), key=repr))
+        else:
+            r = repr(v)
+        if ' at 0x' not in r:
+            out.append((k, r))
+    return tuple(out)
+
+
 def jumper_pub(j):
     return (j.bib, tuple(j.attempts_by_height), j.highest_cleared, j.place, j._place, j.eliminated, j.dismissed,
-            j.round_lim, j.consecutive_failures, j.highest_cleared_index)
+            j.round_lim, j.consecutive_failures, j.highest_cleared_index, _others(j, _J_LISTED))
 
 
 def snap(c, log=True):
     s = (c.state, tuple(c.heights), c.bar_height, tuple(jumper_pub(j) for j in c.jumpers), tuple(j.bib for j in c.ranked_jumpers),
-         tuple(sorted(c.jumpers_by_bib)))
+         tuple(sorted(c.jumpers_by_bib, key=repr)) + (_others(c, _C_LISTED),))
     if log:
         s += (tuple((a, (tuple(sorted(v.items())) if isinstance(v, dict) else v)) for a, v in c.actions), tuple(c.trials))
     return s
 
 
 def snap_diff(a, b):
-    names = ['state', 'heights', 'bar_height', 'jumpers(bib,card,best,place,_place,eliminated,dismissed,round_lim,consecutive_failures,best_index)',
-             'ranked order', 'bibs', 'actions', 'trials']
+    names = ['state', 'heights', 'bar_height', 'jumpers(bib,card,best,place,_place,eliminated,dismissed,round_lim,consecutive_failures,best_index,other-attributes)',
+             'ranked order', 'bibs+other-attributes', 'actions', 'trials']
     return [names[i] for i in range(min(len(a), len(b))) if a[i] != b[i]]
 
 
@@ -1072,6 +1095,13 @@ class Explorer(object):
             self.apply(c, 'set_bar_height', h)
             plan = {b: list(cards[b][i]) if i < len(cards[b]) else [] for b in order}
             while any(plan.values()):
+                if rnd.random() < 0.06:
+                    # an official enters a trial for somebody who may not jump just now (through with this bar, out, retired): refused,
+                    # caught, and nothing may be left behind by it - not even a counter that only matters at the next clearance
+                    places_now = {j.bib: j.place for j in c.jumpers}
+                    barred = [x for x in sh.bibs if must_refuse(sh, places_now, 'failed', x)]
+                    if barred:
+                        self.apply(c, rnd.choice(['failed', 'failed', 'cleared', 'passed', 'retired']), rnd.choice(barred))
                 b = rnd.choice([b for b, q in plan.items() if q])
                 t = plan[b].pop(0)
                 self.apply(c, {'o': 'cleared', 'x': 'failed', 'r': 'retired'}[t], b)
